@@ -76,6 +76,11 @@ CHECKS = {
             "passes one metric's (name, labels, namespace or 'deep', help, unit, value) in interface order to every processor "
             "(each isolated, processors re-obtained per metric), that the value is 1 unless float(expression) and labels are "
             "static or evaluated text, and that without a processor the hit is rejected before limits.", "4/C17"),
+    "C19": ("decision table of the config lookup fallback, documentation/default key agreement, text-to-number type-flow rule, flat-list shape rule, order rule of is_app_frame",
+            "Static decision of the lookup precedence over every presence class (code > module default > DEEP_<KEY> > None, callables "
+            "called), that every documented key has a default reading its own DEEP_ variable, that no setting that can be environment "
+            "text reaches an arithmetic use unconverted and list settings are flat lists of text on every path, and of the "
+            "exclude/include/app-root order with the matched-prefix slice.", "4/C19"),
     "C20": ("plugin call-site isolation: extension-point call sites from the resolved call graph, guard-inside-loop rule, loader shape",
             "Static rule over every plugin callback site found by callee resolution: guarded by a non-re-raising "
             "handler for Exception, inside the loop over plugins, in the site's function or on every in-repo call "
